@@ -114,4 +114,22 @@ theorem C05_bytesC (p : Policy) (hp : PlainC p.ensureInit) (input : Bytes) :
     · exact hss
     · exact absurd h hnc
 
+/-- (per-input form)  **C05 (byte level), comments allowed or not**: the same for every policy without AllowUnsafe
+    and without a raw-text element on its allowlist, whether or not it allows comments -/
+theorem C05_bytesC_on (p : Policy) (input : Bytes) (hp : PlainOn p.ensureInit (tokenize input)) :
+    ∀ k ∈ tokenize (p.sanitizeCore input), isTag k = true → isScriptOrStyle k.data = false := by
+  intro k hk htag
+  obtain ⟨toks, _, hrt, hf⟩ := sanitizeTokens_roundtripOn (tokenize input) hp (tokenize_wf input)
+  unfold Policy.sanitizeCore at hk
+  rw [hrt] at hk
+  rcases mem_coalesce (toks.map reread) [] k hk with h | ⟨hmem, hne⟩
+  · unfold isTag at htag; rw [h.1] at htag; exact absurd htag (by decide)
+  · have hnc : k.tt ≠ .comment := by
+      intro h; unfold isTag at htag; rw [h] at htag; exact absurd htag (by decide)
+    obtain ⟨_, t, _, hor⟩ := hf k (mem_map_reread hmem hnc)
+    rcases hor with ⟨_, (h | ⟨_, _, _, hss⟩)⟩ | ⟨h, _⟩
+    · exact absurd h.1 hne
+    · exact hss
+    · exact absurd h hnc
+
 end BM.Props
